@@ -14,4 +14,8 @@ def run(rep, W, ctx):
     S.s_wmc(rep, W)
     S.c03_loop(rep, W)
     H.c18_handlers(rep, W)
+    S.s_txn2(rep, W)       # a refused / failed write is undone by dropping the transaction only if one was really begun
+    from rules import wiring as WR
+    WR.c13_written(rep, W)  # the readers write nothing, on both back ends
+    S.s_mematomic(rep, W)  # the in-memory back end has no rollback: a failing method must not have written
     H.c15_bound(rep, W)    # which write requests are *refused* (wrong content type, empty / oversized body) is defined by these guards
